@@ -62,4 +62,7 @@ def sendsUnderLock : List String := []
 /-- the argument of every transport._unlink_channel(…) call in class Channel -/
 def unlinkArgs : List String := ["self.chanid", "self.chanid"]
 
+/-- … and the method of class Channel each of those calls sits in -/
+def unlinkCallers : List String := ["_handle_close", "_unlink"]
+
 end PV.Generated.ChanLock
